@@ -200,7 +200,9 @@ func (c c03) Run(x *Exec, scn any) {
 	case "refresh":
 		cfg := s.Sys.Render()
 		var err error
-		pv, st := call(func() { err = log.Refresh(cfg) })
+		var pv any
+		var st string
+		x.do("refresh", func() { pv, st = call(func() { err = log.Refresh(cfg) }) })
 		if pv != nil {
 			o.violate("refresh-panic", c.ID()+"/refresh-panic/"+panicSite(st), "Refresh panicked on a valid configuration: %v\n%s", pv, short(st, 1500))
 			return
